@@ -266,6 +266,12 @@ def make_settings(op, model):
             # nested settings (the annealing dictionary) are part of the caller's object too: the algorithm resolves
             # annealing.n_iter from the fraction and must write it into its own copy only
             kw["annealing"] = dict(do_annealing=True, n_plateau=3, initial_temperature=4.0)
+        if op.get("sampler_pop"):
+            # settings written for a fit and reused for a personalisation: the population-sampler keys are accepted (with a
+            # "not present by default" warning) and must stay without effect — a personalisation never samples population variables
+            kw["sampler_pop"] = op["sampler_pop"]
+            if op.get("sampler_pop_params"):
+                kw["sampler_pop_params"] = copy.deepcopy(op["sampler_pop_params"])
     return AlgorithmSettings(op["algo"], seed=op["seed"], **kw)
 
 
@@ -630,6 +636,10 @@ def gen_sequence(rng):
                 op["n_iter"] = rng.randint(6, 14)
                 if rng.random() < 0.35:
                     op["annealing"] = True
+                if rng.random() < 0.3:
+                    op["sampler_pop"] = rng.choice(["Gibbs", "FastGibbs", "Metropolis-Hastings"])
+                    if rng.random() < 0.5:
+                        op["sampler_pop_params"] = dict(acceptation_history_length=rng.choice([5, 25]), random_order_dimension=rng.random() < 0.5)
             ops.append(op)
     return dict(kind=kind, ops=ops)
 
@@ -647,6 +657,19 @@ DIRECTED = [
                                {"op": "personalize", "algo": "mode_posterior", "cohort": 3, "ids": [1, 2], "as": "df", "seed": 8, "n_iter": 9, "annealing": True},
                                dict(op="simulate", visits="random", seed=2), dict(op="save"), dict(op="load"),
                                {"op": "personalize", "algo": "scipy_minimize", "cohort": 3, "ids": [1], "as": "df", "seed": 8}]),
+    # settings of a fit reused for personalisations (population-sampler keys present): nothing of the model may move, the repeated
+    # call answers the same, estimate answers as before
+    dict(kind="logistic", ops=[dict(op="fit", cohort=1, n_iter=6, seed=3),
+                               dict(op="estimate", form="dict", n=2, seed=4),
+                               {"op": "personalize", "algo": "mean_posterior", "cohort": 2, "ids": [0, 1, 3], "as": "df", "seed": 5, "n_iter": 12, "sampler_pop": "Gibbs"},
+                               {"op": "personalize", "algo": "mean_posterior", "cohort": 2, "ids": [0, 1, 3], "as": "df", "seed": 5, "n_iter": 12, "sampler_pop": "Gibbs"},
+                               dict(op="estimate", form="dict", n=2, seed=4),
+                               {"op": "personalize", "algo": "mode_posterior", "cohort": 2, "ids": [2, 4], "as": "data", "seed": 6, "n_iter": 10, "sampler_pop": "Metropolis-Hastings"},
+                               dict(op="simulate", visits="random", seed=2)]),
+    dict(kind="linear", ops=[dict(op="load"),
+                             {"op": "personalize", "algo": "mode_posterior", "cohort": 3, "ids": [1, 2, 5], "as": "dataset", "seed": 8, "n_iter": 9, "sampler_pop": "FastGibbs",
+                              "sampler_pop_params": dict(acceptation_history_length=5)},
+                             dict(op="estimate", form="multiindex", n=2, seed=4)]),
     dict(kind="joint", ops=[dict(op="fit", cohort=2, n_iter=5, seed=1),
                             {"op": "personalize", "algo": "mean_posterior", "cohort": 2, "ids": [0, 2], "as": "data", "seed": 5, "n_iter": 8},
                             {"op": "personalize", "algo": "scipy_minimize", "cohort": 1, "ids": [4], "as": "data", "seed": 5},
